@@ -16,7 +16,8 @@ LEVEL_TEXT = (
     " finding can pass the per-file filter; rule ids and names injective; SARIF regions use the renderer's own location lookup."
 )
 NOT_DECIDED = "`exactly once` across recursive template instantiation; that positions in SARIF equal the terminal's beyond using the same lookup."
-TRUSTED = ["syn parser", "finite-function evaluator", "codespan `Files::location` gives line/column of a byte offset"]
+ENGINE = "mirfacts+astq"
+TRUSTED = ["rustc MIR (engines/mirfacts) for C03.10", "syn parser", "finite-function evaluator", "codespan `Files::location` gives line/column of a byte offset"]
 
 MAIN = "cli/src/main.rs"
 RUN = "program_analysis/src/analysis_runner.rs"
@@ -579,6 +580,12 @@ def rule_filter_laws(ctx):
     else:
         tt = render(f3["body"]).replace(" ", "")
         pv3 = sgrep.params(f3)
+        # complete truth table over the label worlds (no label / all labels in user files / none / both) x category
+        import reportflow
+
+        for lw, exp in (("empty", {"Error"}), ("user", "all"), ("other", set()), ("mixed", "all")):
+            got, d = reportflow.filter_tolerance(lw)
+            ctx.check(R, "filter_by_file/table[labels=%s]" % lw, got == exp, "passes %s, expected %s (a report is shown iff one of its primary labels is in a file named by the user, or it is an error without any label): %s" % (sorted(got) if isinstance(got, set) else got, sorted(exp) if isinstance(exp, set) else exp, d[:200]), site(MAIN, f3))
         ctx.check(R, "filter_by_file/primary-label-in-user-input", len(pv3) == 2 and sgrep.has(f3["body"], "__r.primary_file_ids().iter().any(|__f| __u.contains(__f))", sgrep.lets(f3["body"]), {"__r": pv3[0], "__u": pv3[1]}), tt[:200], site(MAIN, f3))
     # default level
     cfgf = "program_analysis/src/config.rs"
@@ -697,4 +704,7 @@ def run(ctx):
     rule_region(ctx)
     import c02
 
+    import dropflow
+
+    ctx.include("C03.10", "prerequisite shared with C02.10: no report-carrying value (warnings returned next to a parse result, the reports of a library, an error payload) is left untouched and dropped", lambda c: dropflow.rule_consumed(c, "C02.10"))
     ctx.include("C03.9", "prerequisite shared with C02: when CFG generation fails, everything collected so far (not only the fatal error) is appended to the per-definition cache before the error exit", c02.rule_error_path)
